@@ -36,3 +36,37 @@ func VerifPlanSegments(idx Index, seeds ...Seed) (out [][3]int) {
 	}
 	return out
 }
+
+// VerifNullSeed returns a null-chunk seed for the given ID without creating a block file.
+func VerifNullSeed(id ChunkID, canReflink bool) Seed {
+	return &nullChunkSeed{id: id, canReflink: canReflink}
+}
+
+// VerifPlanDetail returns, for every entry of the plan the sequencer builds for idx with the
+// given seeds: first and last index position, the kind of source (0 none, 1 file seed, 2 null
+// seed), the position of the seed in seeds, the source's first offset (file: start of its first
+// chunk; null: from), its number of chunks (file) or end offset (null), and Size().
+func VerifPlanDetail(idx Index, seeds ...Seed) (out [][7]uint64) {
+	for _, c := range NewSeedSequencer(idx, seeds...).Plan() {
+		e := [7]uint64{uint64(c.indexSegment.first), uint64(c.indexSegment.last)}
+		for i, s := range seeds {
+			if s == c.seed {
+				e[3] = uint64(i)
+			}
+		}
+		switch src := c.source.(type) {
+		case *fileSeedSegment:
+			e[2] = 1
+			if len(src.chunks) > 0 {
+				e[4] = src.chunks[0].Start
+			}
+			e[5] = uint64(len(src.chunks))
+			e[6] = src.Size()
+		case *nullChunkSection:
+			e[2] = 2
+			e[4], e[5], e[6] = src.from, src.to, src.Size()
+		}
+		out = append(out, e)
+	}
+	return out
+}
